@@ -518,6 +518,27 @@ pub fn run(ctx: &Ctx) -> Report {
         rep.violations.push(Violation { sig, summary: format!("{kind}: `{text}`"), case: json!({"list": text}), expected: e, observed: o });
     }
 
+    // E3: coverage-guided campaign on the splitter (thorough tier)
+    if ctx.tier == Tier::Thorough {
+        let secs: u64 = std::env::var("DMV_FUZZ_SECS").ok().and_then(|s| s.parse().ok()).unwrap_or(240);
+        match super::fuzzrun::run_campaign(ctx, "expr_split", secs, 8, true) {
+            Ok(c) => {
+                rep.evidence.set("fuzz_expr_split_executions", json!(c.runs));
+                rep.evidence.eval(c.runs);
+                for bytes in c.crashes {
+                    let text = fuzz_decode(&bytes);
+                    if let Some((what, e, o, sig)) = check_text(&text) {
+                        let sig = resolve_sig(ctx, sig);
+                        rep.violations.push(Violation { sig, summary: format!("{what}: `{text}` (found by fuzzing)"), case: json!({"list": text}), expected: e, observed: o });
+                    } else {
+                        rep.infra_errors.push(format!("fuzz target expr_split crashed on an input the in-process oracle accepts: `{text}`"));
+                    }
+                }
+            }
+            Err(e) => rep.infra_errors.push(format!("fuzz campaign expr_split: {e}")),
+        }
+    }
+
     // rustc cross-validation of the proxy on a sample (alias-free lists)
     let sample_n = ctx.tier.pick(1000usize, 20_000);
     let mut sample: Vec<String> = vec![];
@@ -591,6 +612,49 @@ fn rustc_split(ctx: &Ctx, lists: &[String]) -> Result<Vec<Option<Vec<String>>>, 
         })
         .collect())
 }
+
+const DICT: [&str; 96] = [
+    "a", "b", "_0", "_1", "x", "self", "S", "T", "K", "V", "M", "f", "m", "u8", "i32", "usize", "String", "Vec", "Box", "Option",
+    "1", "2", "0x1f", "1.5", "\"s\"", "'c'", "b\"x\"", "true", "r#type", "crate", "Self", "N",
+    ",", ",", ",", "::", "::", "<", ">", "<", ">", "<<", ">>", "<=", ">=", "==", "!=", "=", "|", "||", "&", "&&", "+", "-", "*", "/", "%", "^", "!", "?", ".", "..", "..=", ":", ";", "->", "=>", "#", "@", "'a",
+    "as", "as", "fn", "dyn", "move", "if", "else", "match", "loop", "break", "return", "unsafe", "let", "mut", "ref", "in", "for", "while", "const", "where", "impl", "struct", "_", "$", "k =", "al =",
+];
+
+/// byte string -> token text (fuzz target `expr_split`): token dictionary + nesting operators
+pub fn fuzz_decode(data: &[u8]) -> String {
+    let mut out = String::new();
+    let mut stack: Vec<char> = vec![];
+    for &b in data.iter().take(400) {
+        match b {
+            0..=95 => {
+                out.push_str(DICT[b as usize]);
+                out.push(' ');
+            }
+            96..=111 => {
+                let (o, c) = [('(', ')'), ('[', ']'), ('{', '}')][(b as usize - 96) % 3];
+                if stack.len() < 24 {
+                    out.push(o);
+                    stack.push(c);
+                }
+            }
+            112..=127 => {
+                if let Some(c) = stack.pop() {
+                    out.push(c);
+                    out.push(' ');
+                }
+            }
+            _ => {
+                out.push_str(DICT[(b as usize) % 96]);
+                out.push(' ');
+            }
+        }
+    }
+    while let Some(c) = stack.pop() {
+        out.push(c);
+    }
+    out
+}
+
 
 /// One token text through the splitter comparison and the attribute-level checks: used by the fuzz target.
 pub fn check_text(text: &str) -> Option<(String, String, String, Option<String>)> {
